@@ -31,6 +31,8 @@ def run(ck, fb):
     r19e(ck, fb)
     r19f(ck, fb)
     r19g(ck, fb)
+    r19h(ck, fb)
+    r19i(ck, fb)
 
 
 def r19a(ck, fb):
@@ -420,3 +422,73 @@ def r19g(ck, fb):
         ck.require(k not in bad, 'R19g', 'SeqGroup:' + k, fns['apply_range'].where(), bad.get(k, '') +
                    (' - a refill that lands while the current buffer is exhausted must not overwrite it in front of the other buffer' if k == 'increasing' else ''),
                    'holds in all %d states' % n)
+
+
+def r19h(ck, fb, R='R19h'):
+    ck.rule(R, 'nothing is served before the state is back: starter::config_factory returns (and main then opens the HTTP / gRPC ports) only after a '
+               'round trip through StateApplyManager, whose mailbox stays closed (ctx.wait) while it restores snapshot and log into the actors. '
+               'Every path from FactoryData init to the return passes an awaited Addr<StateApplyManager>::send. Without it a single-node Raft '
+               'reports itself leader within a millisecond and a publish in that window takes history id 1 from the empty counter, on top of '
+               'the history that is being restored')
+    b = None
+    for x in fb.find(r'^rnacos::starter::config_factory::\{closure#0\}$'):
+        b = x
+    if not ck.require(b is not None, R, 'anchor:config_factory', '-', 'starter::config_factory not found'):
+        return
+    ck.analysed(b)
+    inits = b.calls(r'bean_factory::.*::init$|BeanFactory::init$|::init$')
+    inits = [s0 for s0 in inits if 'BeanFactory' in (s0.full or s0.callee or '') or 'bean_factory' in (s0.full or s0.callee or '')]
+    if not ck.require(len(inits) >= 1, R, 'anchor:factory.init', b.where(), 'factory.init() not found in config_factory'):
+        return
+    sends = [s0 for s0 in b.calls(r'actix::Addr::<A>::send$') if s0.gargs and s0.gargs[0].endswith('raftapply::StateApplyManager')]
+    sends = [s0 for s0 in sends if util.awaited(b, s0)]
+    via = [s0.bb for s0 in sends]
+    nxt = b.blocks[inits[-1].bb]['t'].get('t')
+    ok = bool(via) and nxt is not None and cfg.must_pass_before_return(b, nxt, via)
+    ck.require(ok, R, 'config_factory:waits-for-restore', inits[-1].where(),
+               'config_factory returns right after factory.init(): the servers start while StateApplyManager is still loading the snapshot and the log '
+               '(250 publishes, snapshot every 100, restart, publish k0: history of k0 = [1, 241, 201, ...], the new record is stamped 1)',
+               'awaits StateApplyManager before returning')
+    # the round trip is a barrier only while the restore keeps the mailbox closed: each restore step registers its future with wait, not spawn
+    SM = 'rnacos::raft::filestore::raftapply::StateApplyManager::'
+    for fn in ('load_index', 'load_snapshot', 'load_log'):
+        x = fb.bodies.get(SM + fn)
+        if not ck.require(x is not None, R, 'anchor:StateApplyManager::' + fn, '-', 'restore step %s not found' % fn):
+            continue
+        ck.analysed(x)
+        w = x.calls(r'ContextFutureSpawner<.*>>::wait$|AsyncContext<.*>>::wait$')
+        sp = x.calls(r'ContextFutureSpawner<.*>>::spawn$|AsyncContext<.*>>::spawn$')
+        ck.require(len(w) >= 1 and not sp, R, 'restore-holds-mailbox:' + fn, x.where(),
+                   'StateApplyManager::%s runs its restore step as a spawned future: the actor answers messages (and the start-up barrier) while the '
+                   'state is still loading' % fn, 'registered with ctx.wait')
+
+
+def r19i(ck, fb, R='R19i'):
+    ck.rule(R, 'an id range nobody else knows about is not used: ConfigActor takes the history id of a publish from a local reservation '
+               '(SimpleSequence::next_state) before the Raft write, and only the write carrying the FIRST id of a reservation announces it '
+               '(history_table_id). When a write fails the reservation may be unannounced, so the failure path of Handler<ConfigAsyncCmd> must '
+               'reset the local sequence (a &mut call on the `sequence` field guarded by the error outcome). Otherwise the node goes on using '
+               'the rest of the range, and a restart or another leader issues the same ids again')
+    hname = '<rnacos::config::core::ConfigActor as actix::Handler<rnacos::config::core::ConfigAsyncCmd>>::handle'
+    h = ck.body(hname, R)
+    if not h:
+        return
+    takes = [s0 for x in fb.tree(hname) for s0 in x.calls(r'SimpleSequence::next_state$')]
+    if not ck.require(len(takes) >= 1, R, 'anchor:next_state', h.where(), 'the publish handler no longer takes its id from SimpleSequence::next_state'):
+        return
+    resets = []
+    for x in util.region(fb, h, 1):
+        for s0 in x.sites:
+            nm = s0.full or s0.callee or ''
+            if 'SimpleSequence::' not in nm or nm.endswith('::next_state') or 'sequence' not in util.recv_fields(x, s0):
+                continue
+            atoms = cfg.guard_atoms(x, s0.bb)
+            err = any((a[0] == 'call' and re.search(r'Result::<T, E>::is_err$', a[1] or '') and a[2] is True) or
+                      (a[0] == 'call' and re.search(r'Result::<T, E>::is_ok$', a[1] or '') and a[2] is False) or
+                      (a[0] == 'variant' and a[2] == 'Err') for a in atoms)
+            if err:
+                resets.append(s0)
+    ck.require(len(resets) >= 1, R, 'failed-write-resets-reservation', takes[0].where(),
+               'nothing resets the local id reservation when the Raft write of a publish fails: a publish routed to a non-leader fails, the node is '
+               'then elected, publishes k1, k2 (ids 2, 3) and restarts; after the restart id 2 is issued again (for k4)',
+               'reset on the error path')
